@@ -57,7 +57,11 @@ func (p c02) Gen(t *Tape, tier string, run int) interface{} {
 		sizes[i] = m.Len
 		total += m.Len
 	}
-	c.Hist = genHistory(t, sizes, p.cached, 30)
+	maxOps := 30
+	if tier == "thorough" && t.Chance("work", 1, 4) {
+		maxOps = 80 // deeper histories in the thorough tier
+	}
+	c.Hist = genHistory(t, sizes, p.cached, maxOps)
 	c.RD = t.Pick("work", 0, 1, 2, 2, 3, 4)
 	c.Procs = t.Pick("work", 1, 2, 3, 4)
 	c.Kind = []string{"read+seek", "read+seek+byte"}[t.Draw("work", 2)]
